@@ -285,6 +285,15 @@ def main(argv):
         for r in stream_results:
             if r["rc"] != 0:
                 broken.append("stream %s exited %d: %s" % (r["test"], r["rc"], r["tail"][-600:]))
+                # a daemon that panics takes the test process down: the history that was being extended is on disk
+                m = re.search(r"^(panic: .*|fatal error: .*)$", r["tail"], re.M)
+                for nm in r["names"]:
+                    pp = os.path.join(outdir, nm + ".pending")
+                    if m and os.path.exists(pp) and "C10" in (pid,):
+                        lines = open(pp).read().split("\n")
+                        findings.append({"property": pid, "signature": "crash:" + m.group(1)[:60], "stream": nm, "config": lines[0] if lines else "",
+                                         "what": "the daemon crashed while handling the last frame of this history: " + m.group(1)[:200],
+                                         "ops": lines[1:], "observed": m.group(1)[:300]})
             for nm in r["names"]:
                 sp = os.path.join(outdir, nm + ".stats.json")
                 if os.path.exists(sp):
@@ -371,8 +380,8 @@ def main(argv):
     print("%s %s: obligations %d/%d, correspondence ops %d, monitor cases %d, %.1fs -> %s" % (
         pid, tier, ev["coverage"]["discharged"], len(obligations), ev["coverage"]["traces_validated_against_impl"], evals,
         time.time() - t0, "VIOLATION" if violations else "ok"))
-    if not violations and not os.environ.get("VERIF_KEEP"):
-        shutil.rmtree(outdir, ignore_errors=True)
+    if not os.environ.get("VERIF_KEEP"):
+        shutil.rmtree(outdir, ignore_errors=True)   # replays are self-contained; scratch output is never needed afterwards
     return 1 if violations else 0
 
 
